@@ -77,6 +77,7 @@ impl Function {
         match *self {
             Function::PostScript { ref domain, .. } => domain.len() / 2,
             Function::Sampled(ref f) => f.input.len(),
+            Function::Interpolated(_) => 1,
             _ => panic!()
         }
     }
@@ -84,6 +85,7 @@ impl Function {
         match *self {
             Function::PostScript { ref range, .. } => range.len() / 2,
             Function::Sampled(ref f) => f.output.len(),
+            Function::Interpolated(ref parts) => parts.len(),
             _ => panic!()
         }
     }
